@@ -33,4 +33,8 @@ cAttrs == [names |-> {N(<<"a">>)}, anames |-> {N(<<"x">>), N(<<"y", "-", "z">>),
 cAttrs2 == [cAttrs EXCEPT !.maxattrs = 2]      \* two elements: at most two attributes each (three on one element: cAttrs with MaxElems = 1)
 cExtras == [names |-> {N(<<"a">>), N(<<"b", "-", "c">>)}, anames |-> {N(<<"x">>)}, avals |-> {<<"1">>}, texts |-> {<<" ", "t", " ">>, <<"\n">>, <<"<", "&">>},
             maxattrs |-> 1, extras |-> {XC(<<"c", "&", "<", "'", ">", " ", "<", "b">>), XD(<<"D", "O", "C", "T", "Y", "P", "E", " ", "a">>), XP(<<"x", "m", "l", "-", "s">>, <<"x", "=", "1", ">", "\n", "<", "y", " ">>)}]   \* ("> <" inside a comment / instruction is text, not inter-element white space)
+\* names longer than 32 bytes that agree in their first 32 characters (request / response pairs of a generated interface), with a prefix
+L32 == <<"g", "e", "t", "C", "u", "s", "t", "o", "m", "e", "r", "B", "i", "l", "l", "i", "n", "g", "A", "c", "c", "o", "u", "n", "t", "D", "e", "t", "a", "i", "l", "s">>
+cLongNames == [names |-> {NM("tns", L32 \o <<"R", "e", "q">>), NM("tns", L32 \o <<"R", "e", "s">>), N(L32 \o <<"X">>)}, anames |-> {}, avals |-> {}, texts |-> {<<"t">>}, maxattrs |-> 0, extras |-> {}]
+
 =============================================================================
